@@ -17,6 +17,11 @@ TEXT = {
         "note": _NOTE + "function-internal unknown handling is decided by the oracle only (partial); one known finding (setproduct), two fix: commits.",
         "technique": "Coq proof over the call-protocol model instantiated at a source-translated specification table + correspondence by vm_compute + implementation-side weakening / admits oracle",
     },
+    "C13": {
+        "level": "An independent reference semantics of 27 collection, set and sequence functions is written in Gallina over plain member lists and association lists, with the documented result types (Model/StdRef.v). Theorems about the reference, for all inputs: reverse is an involution on lists; chunks partition the list, are non-empty and bounded by the size; slices have length j-i, the full range is the list and adjacent slices concatenate; element's index wraps around; setproduct yields the product of the sizes, one member per operand; sort yields an ascending permutation. Every generated call of the implementation on wholly known arguments is compared with the reference (value, type, error class), and algebraic cross-checks run on the implementation itself.",
+        "note": _NOTE + "equality of implementation and reference is by correspondence on generated calls (partial).",
+        "technique": "Coq proof of the laws of a Gallina reference semantics + correspondence of every generated call by vm_compute + implementation-side algebraic cross-checks",
+    },
     "C15": {
         "level": "cty/json Marshal, Unmarshal and ImpliedType are modelled at the JSON token-tree level. Theorems: unknown, marked and infinite values are rejected; strings, booleans and nulls round-trip; at a dynamic position the encoder writes exactly the documented wrapper and the decoder reduces it to decoding against the recovered type. The integer-text loss is refuted by a kernel-computed witness (known finding). Every generated value x constraint and every grammar document is encoded/decoded by the implementation, compared token tree by token tree with the model, and the round-trip / mirror / implied-type clauses are evaluated on both sides.",
         "note": _NOTE + "encoding/json's lexer is the byte-level mapping on both sides; two known findings (integer text, nested placeholders).",
